@@ -232,7 +232,7 @@ def model_round(case, drv, ch, line_model, sels, pref_impl, pref_total, p0, lo, 
     args = model_chain(case, ch, [], lo, hi, target)
     args['chain']['line'] = line_model
     args.update(span_cfg(case['span']))
-    args.update(sels=sels, pref=f2b(pref_impl), pref_total=f2b(pref_total), src_power=f2b(p0))
+    args.update(sels=sels, pref=f2b(pref_impl), pref_total=f2b(pref_total), src_power=f2b(p0), display_power=f2b(p0))
     return drv.ask('c09.design', **args)
 
 
